@@ -291,6 +291,10 @@ impl DatabaseCheckpoint {
 	fn flush_all_memtables(&self) -> Result<()> {
 		// Step 1: Rotate active memtable if it has data
 		{
+			#[cfg(surrealkv_verif)]
+			crate::verif::acquire_point("memtable:read-lock", &|| {
+				self.core.active_memtable.try_read().is_err()
+			});
 			let active = self.core.active_memtable.read()?;
 			if !active.is_empty() {
 				drop(active); // Release read lock before acquiring write lock
